@@ -248,19 +248,20 @@ def big_cases(seed, count, tag, queries=True, routes=True):
         yield c
 
 
-def comb_cases(seed, tag, sizes=((1300, 1300),), samples=3000):
+def comb_cases(seed, tag, sizes=((1300, 1300, 9), (1300, 1400, None)), samples=3000):
     """A closed depression of a million nodes made of one-node corridors (a "comb"): the flood front holds
     hundreds of nodes at once and each corridor can only be entered through one node, so internal queues,
     stacks and counters of the resolver are pushed past every small capacity.  Observed at sampled nodes."""
     rng = random.Random(seed)
-    for k, (nr, nc) in enumerate(sizes):
+    for k, (nr, nc, c0) in enumerate(sizes):
+        c0 = c0 if c0 is not None else rng.randrange(3, 60, 2)
         g = gen.raster(nr, nc, "rook", [FV, FV, FV, FV])
         n = nr * nc
         nodes = set([0, nc + 1, n - 1, n - nc - 2])
         while len(nodes) < samples:
             nodes.add(rng.randrange(n))
         # whole corridors' ends (the last nodes the front reaches) and the spine
-        for c_ in rng.sample(range(1, nc - 1), 60):
+        for c_ in rng.sample(range(c0, nc - 1), 60):
             nodes.update([(nr - 2) * nc + c_, (nr // 2) * nc + c_, nc + c_, 2 * nc + c_])
-        yield dict(kind="big", id="%s-%d-%d" % (tag, seed, k), grid=g, timeout_ms=240000, comb=dict(B=10, L=1, W=20),
+        yield dict(kind="big", id="%s-%d-%d" % (tag, seed, k), grid=g, timeout_ms=240000, comb=dict(B=10, L=1, W=20, c0=c0),
                    fills=[dict(samples=sorted(nodes))])
